@@ -30,6 +30,14 @@ def special(rng, force=None):
     """(a) hairline strokes under a magnifying ancestor; (b) sharp miter corners with wide strokes, sampled along the
     outward bisector where SVG bevels or not depending on the miter limit"""
     k = rng.random() if force is None else force
+    if 0.90 < k <= 0.94:
+        # an odd-length dash array repeats itself to an even one: the period is twice its sum, offsets are taken modulo that
+        arr, off = rng.choice([("10 5 5", 25), ("7", 10), ("6 3 2", 12), ("6 3 2", -8), ("9", -10), ("8 4 4", 20)])
+        y = rng.choice([20.0, 40.0, 60.0])
+        src = ('<svg xmlns="http://www.w3.org/2000/svg" viewBox="0 0 100 100"><path d="M5,%s L95,%s" fill="none" stroke="blue" stroke-width="6" '
+               'stroke-dasharray="%s" stroke-dashoffset="%s"/></svg>' % (y, y, arr, off))
+        pts = [(5 + 1.5 + 2.5 * i, y) for i in range(34)]
+        return src, pts
     if k > 0.94:
         # the dotted-line idiom: zero-length dashes with round or square caps are dots
         gap = rng.choice([8, 10, 12])
@@ -88,7 +96,7 @@ def special(rng, force=None):
 
 
 P = RenderProp(features, "color", n_quick=100, n_thorough=600, nontrivial=nontrivial, special=special)
-P.firsts = [0.97, 0.02, 0.07, 0.15, 0.23, 0.96, 0.03, 0.12]
+P.firsts = [0.97, 0.02, 0.07, 0.15, 0.23, 0.92, 0.96, 0.03, 0.12, 0.93]
 correspondence = P.correspondence
 search = P.search
 replay = P.replay
